@@ -1082,6 +1082,9 @@ struct SimNode {
     lines: Arc<Mutex<Vec<String>>>,
     /// (index, term) of stabilised entries whose persistence has not been reported yet
     unreported: Option<(u64, u64)>,
+    /// notices sent earlier: some come again much later (a late completion of an old write, after the entries at
+    /// that index may have been replaced)
+    old_notices: Vec<(u64, u64)>,
     restarts: u32,
 }
 
@@ -1388,6 +1391,29 @@ impl<'a> Sim<'a> {
         if let Some(l) = last {
             self.nodes[i].unreported = Some(l);
         }
+        if let Some((uidx, _)) = self.nodes[i].unreported {
+            // entries are written but not yet reported: the moment at which a LATE notice of an older write (same
+            // index range, possibly another term) is most telling
+            if self.rng2.chance(20) {
+                // prefer notices about indexes that are written but unreported now and whose entry has been replaced
+                // since (another term): exactly what RaftLog::maybe_persist's term check exists for
+                let persisted = self.nodes[i].st.as_ref().unwrap().rn.raft.raft_log.persisted;
+                let stale: Vec<(u64, u64)> = {
+                    let st = self.nodes[i].st.as_ref().unwrap();
+                    self.nodes[i].old_notices.iter().cloned()
+                        .filter(|(k, t)| *k > persisted && *k <= uidx && st.rn.raft.raft_log.term(*k).map_or(false, |x| x != *t))
+                        .collect()
+                };
+                let cand: Vec<(u64, u64)> = if !stale.is_empty() { stale } else { self.nodes[i].old_notices.iter().cloned().filter(|(k, _)| *k <= uidx).collect() };
+                if !cand.is_empty() {
+                    let (k, t) = cand[self.rng2.below(cand.len() as u64) as usize];
+                    if !self.call(i, Op::OnPersistEntries(k, t)) {
+                        return;
+                    }
+                    Coverage::bump(&mut self.cov.events, "late_persist_notice_before_report".into());
+                }
+            }
+        }
         if let Some((idx, term)) = self.nodes[i].unreported {
             if full || self.rng.chance(85) {
                 if self.rng.chance(10) && idx > 1 {
@@ -1402,6 +1428,10 @@ impl<'a> Sim<'a> {
                     return;
                 }
                 self.nodes[i].unreported = None;
+                if self.nodes[i].old_notices.len() >= 64 {
+                    self.nodes[i].old_notices.remove(0);
+                }
+                self.nodes[i].old_notices.push((idx, term));
             }
         }
         // apply
@@ -1965,6 +1995,17 @@ impl<'a> Sim<'a> {
 
     fn extra_faults(&mut self) {
         self.async_fetch();
+        if self.rng2.below(1000) < 15 {
+            // a late duplicate of an old persistence notice (the entries at that index may have been replaced since)
+            let i = self.rng2.below(self.nodes.len() as u64) as usize;
+            if self.nodes[i].st.is_some() && !self.nodes[i].old_notices.is_empty() {
+                let k = self.rng2.below(self.nodes[i].old_notices.len() as u64) as usize;
+                let (idx, term) = self.nodes[i].old_notices[k];
+                if self.call(i, Op::OnPersistEntries(idx, term)) {
+                    Coverage::bump(&mut self.cov.events, "late_persist_notice".into());
+                }
+            }
+        }
         if let Some(i) = self.fresh_leader.take() {
             if self.rng2.chance(40) {
                 self.fresh_leader_calls(i);
@@ -2325,7 +2366,7 @@ fn cluster(seed: u64, malformed: bool, cov: &mut Coverage) -> Sim<'_> {
         }
         cfg.applied = if rng.chance(60) { hs.commit } else { snap.0 };
         let store = build_storage(&hs, &cs, snap, mine);
-        nodes.push(SimNode { id, st: None, cfg, store, snap, lines: Arc::new(Mutex::new(vec![])), unreported: None, restarts: 0 });
+        nodes.push(SimNode { id, st: None, cfg, store, snap, lines: Arc::new(Mutex::new(vec![])), unreported: None, old_notices: vec![], restarts: 0 });
     }
     Sim { nodes, net: vec![], rng, cov, isolated: vec![false; total as usize], next_payload: 1, malformed, et, calls: 0, old_reads: vec![], read_dups_left: 150, rng2: Rng::new(seed ^ 0x5EED_FA17), held: vec![], fresh_leader: None, fetching: vec![] }
 }
